@@ -5,7 +5,8 @@
    correspondence run against its truth table. *)
 From Coq Require Import List ZArith Bool Permutation.
 From DD Require Import Model.Circuit Model.Query Model.Edit Proofs.Semantics Proofs.CountsA Proofs.QueryDefs
-  Proofs.EditReduce Proofs.EditRenumber Proofs.EditUnit Proofs.EditSpec Proofs.EditDispatch.
+  Proofs.EditReduce Proofs.EditRenumber Proofs.EditUnit Proofs.EditSpec Proofs.EditDispatch
+  Proofs.EditWF Proofs.EditQueries.
 Import ListNotations.
 Open Scope Z_scope.
 
@@ -153,15 +154,52 @@ Theorem C11_unit_is_edit_spec : forall (C : circuit) (F : cnf) (n : nat) (l : Z)
 Proof. exact unit_edit_is_spec. Qed.
 Print Assumptions C11_unit_is_edit_spec.
 
-(* WF components of the edited vector that are PROVED: non-empty and well-indexed (children before
-   parents, i.e. the re-flattening is a post-order).  decomposable / complete / deterministic /
-   unique leaves are evaluated per dumped vector by check_wf in the correspondence run;
-   smooth and no_dead are NOT preserved (next theorem). *)
+(* Well-formedness of the edited vector.  Always: non-empty and well-indexed (the re-flattening
+   is a post-order).  When the edit leaves no dead node: WF and WFQ again, so that the C02..C07
+   theorems apply to the edited vector verbatim (instances below).  With dead nodes smooth and
+   no_dead fail (C11_unit_core_refuted); then only C11_unit_sem / C11_unit_count speak about the
+   vector and check_wf is evaluated per dumped vector modulo dead or-children (strip_dead). *)
 Theorem C11_unit_idx_ok : forall (C : circuit) (n : nat) (l : Z),
   WF C n -> 1 <= Z.abs l <= Z.of_nat n -> 0 < MCA C n [l] ->
   unit_edit C l <> [] /\ idx_ok (unit_edit C l) = true.
 Proof. exact unit_edit_idx_ok. Qed.
 Print Assumptions C11_unit_idx_ok.
+
+Theorem C11_unit_WF : forall (C : circuit) (n : nat) (l : Z),
+  WF C n -> 1 <= Z.abs l <= Z.of_nat n -> 0 < MCA C n [l] ->
+  no_dead (unit_edit C l) = true -> WF (unit_edit C l) n.
+Proof. exact unit_edit_WF. Qed.
+Print Assumptions C11_unit_WF.
+
+Theorem C11_unit_WFQ : forall (C : circuit) (n : nat) (l : Z),
+  WFQ C n -> 1 <= Z.abs l <= Z.of_nat n -> 0 < MCA C n [l] ->
+  no_dead (unit_edit C l) = true -> WFQ (unit_edit C l) n.
+Proof. exact unit_edit_WFQ. Qed.
+Print Assumptions C11_unit_WFQ.
+
+(* ... hence: the ALGORITHMS (Model/Query.v: execute_query with all its strategies, sat, the
+   syntactic core) run on the edited vector answer for the conjunction with the unit clause *)
+Theorem C11_unit_then_count : forall (C : circuit) (n : nat) (l : Z) (A : cfg) (s : scratch),
+  WFQ C n -> 1 <= Z.abs l <= Z.of_nat n -> 0 < MCA C n [l] -> no_dead (unit_edit C l) = true ->
+  in_range n A -> Clean (unit_edit C l) s ->
+  let '(s', r) := execute_query (build (unit_edit C l) n) A s in
+  r = MCA C n (l :: A) /\ Clean (unit_edit C l) s'.
+Proof. exact unit_then_count. Qed.
+Print Assumptions C11_unit_then_count.
+
+Theorem C11_unit_then_sat : forall (C : circuit) (n : nat) (l : Z) (A : cfg),
+  WFQ C n -> 1 <= Z.abs l <= Z.of_nat n -> 0 < MCA C n [l] -> no_dead (unit_edit C l) = true ->
+  in_range n A ->
+  sat (build (unit_edit C l) n) A = (0 <? MCA C n (l :: A)).
+Proof. exact unit_then_sat. Qed.
+Print Assumptions C11_unit_then_sat.
+
+Theorem C11_unit_then_core : forall (C : circuit) (n : nat) (l : Z) (x : Z),
+  WFQ C n -> 1 <= Z.abs l <= Z.of_nat n -> 0 < MCA C n [l] -> no_dead (unit_edit C l) = true ->
+  (In x (calculate_core (unit_edit C l) n) <->
+   (forall m, In m (Models C n) -> In l m -> In x m)).
+Proof. exact unit_then_core. Qed.
+Print Assumptions C11_unit_then_core.
 
 (* the re-flattening model (DfsPostOrder over the vector) preserves the function and the count *)
 Theorem C11_reflatten : forall (C : circuit) (s : asg),
@@ -224,8 +262,10 @@ Definition ex_c11 : circuit :=
    And [0;7]%nat].
 Example ex_c11_clean :
   check_wf ex_c11 3 = true /\ MCA ex_c11 3 [-2] = 1 /\
-  check_wf (unit_edit ex_c11 (-2)) 3 = true /\
+  check_wf (unit_edit ex_c11 (-2)) 3 = true /\ no_dead (unit_edit ex_c11 (-2)) = true /\
   Models (unit_edit ex_c11 (-2)) 3 = [[1; -2; -3]] /\
+  snd (execute_query (build (unit_edit ex_c11 (-2)) 3) [1; -3] (fresh_scratch (unit_edit ex_c11 (-2)))) = 1 /\
+  sat (build (unit_edit ex_c11 (-2)) 3) [3] = false /\
   calculate_core (unit_edit ex_c11 (-2)) 3 = [-3; -2; 1].
 Proof. vm_compute. repeat split. Qed.
 
